@@ -61,7 +61,7 @@ def check_pair(ctx, case, ci, q, key_fn, what, n):
 def run(ctx):
     import bct
     lines, pend = [], []
-    per = ctx.scale(70, 1000)
+    per = ctx.scale(70, 2000)
     for fn in ROUTINES:
         R = ROUTINES[fn]
         done = 0
